@@ -1111,6 +1111,59 @@ class Machine:
             return I(self.lookup(fr, rv[1]).load().n, 'usize')
         raise Unsupported('rvalue kind ' + k)
 
+    def _merge_diamond(self, fr, blocks, arms, cond):
+        """state merging for the smallest diamonds: `if c { X } else { Y }` where X and Y are ONE statement each that differ only in
+        constant operands - an assignment of a constant to the same local followed by a goto to the same block, or a call of the
+        same function into the same destination returning to the same block. The two arms become one statement whose differing
+        constant is the if-then-else value. Anything else: None (the caller forks as usual)."""
+        d = dict(arms)
+        if set(d) != {'0', 'otherwise'} and set(d) != {'0', '1'}:
+            return None
+        bf, bt = blocks.get(d['0']), blocks.get(d.get('1', d.get('otherwise')))
+        if bf is None or bt is None:
+            return None
+
+        def ite(x, y):          # value when cond is true / false
+            if isinstance(x, I) and isinstance(y, I) and x.ty == y.ty:
+                return mk_int(z3.If(cond, x.z(), y.z()), x.ty)
+            if isinstance(x, (bool, z3.BoolRef)) and isinstance(y, (bool, z3.BoolRef)):
+                return mk_bool(z3.If(cond, zbool(x), zbool(y)))
+            if isinstance(x, SliceRef) and isinstance(y, SliceRef) and x.n == y.n:
+                vs = [ite(p_, q_) for p_, q_ in zip(x.values(), y.values())]
+                if any(v is None for v in vs):
+                    return None
+                return SliceRef(Arr(x.n, I(0, 'u8'), dict(enumerate(vs))), 0, x.n)
+            return None
+        if len(bt) == 2 and len(bf) == 2 and bt[0][0] == bf[0][0] == 'assign' and bt[1] == bf[1] and bt[1][0] == 'goto' and bt[0][1] == bf[0][1] \
+                and bt[0][1][0] == 'local' and bt[0][2][0] == bf[0][2][0] == 'use' and bt[0][2][1][0] == bf[0][2][1][0] == 'const':
+            x, y = self.operand(fr, bt[0][2][1]), self.operand(fr, bf[0][2][1])
+            v = ite(x, y)
+            if v is None:
+                return None
+            self.lookup(fr, bt[0][1]).store(v)
+            return bt[1][1]
+        if len(bt) == 1 and len(bf) == 1 and bt[0][0] == bf[0][0] == 'call' and bt[0][1] == bf[0][1] and bt[0][2] == bf[0][2] and bt[0][4] == bf[0][4] \
+                and bt[0][4] is not None and len(bt[0][3]) == len(bf[0][3]):
+            argv = []
+            for a, b in zip(bt[0][3], bf[0][3]):
+                if a == b:
+                    if a[0] == 'move':
+                        argv.append(('same', a))
+                        continue
+                    argv.append(('same', a))
+                elif a[0] == b[0] == 'const':
+                    v = ite(self.operand(fr, a), self.operand(fr, b))
+                    if v is None:
+                        return None
+                    argv.append(('val', v))
+                else:
+                    return None
+            vals = [self.operand(fr, a) if kind == 'same' else a for kind, a in argv]
+            r = self.prog.call(self, fr, bt[0][2], vals)
+            self.lookup(fr, bt[0][1]).store(r)
+            return bt[0][4]
+        return None
+
     def _complete_closure(self, fr, clo, st, block):
         """rustc's MIR printer zips a closure's capture operands with the ROOT variables captured, so a closure that captures
         two places of the same variable (self.buf and self.begin) is printed with one operand only. The missing operands are the
@@ -1162,6 +1215,11 @@ class Machine:
                 if k == 'switch':
                     v = self.operand(fr, st[1])
                     arms = st[2]
+                    if isinstance(v, z3.BoolRef) and getattr(self.prog, 'merge_diamonds', False):
+                        j = self._merge_diamond(fr, blocks, arms, v)
+                        if j is not None:
+                            nxt = j
+                            break
                     if isinstance(v, bool) or isinstance(v, z3.BoolRef):
                         t = self.branch_bool(v)
                         key = '1' if t else '0'
